@@ -81,6 +81,9 @@ func checkC16(w *World, r *Report) {
 	c16Status(w, r)
 	c16Follower(w, r)
 	c16CrashSurface(w, r)
+	if a := w.FsmAnchors(); len(a.Problems) == 0 && a.Update != nil {
+		c02Readonly(w, r, a, "C16.g", "g-readonly-classification")
+	}
 }
 
 func c16Guards(w *World, r *Report) {
